@@ -6,11 +6,12 @@ CONF = {
     'coq_sample': 25,   # cases re-evaluated inside Coq by vm_compute against the extracted runner's output
     'pre': [go2v_hook],
     'interesting': ['unequal-length-shared-prefix', 'equal-bytes-different-type', 'len-17-reject',
-                    'reversed-pair', 'layer-flow'],
-    'rule': 'Op sequences over an append-only register file of endpoints and flows: NewEndpoint/NewFlow for 14 endpoint types (incl. negative, min/max int64) x raw lengths 0..18, pairs with shared prefixes / zero extensions / one-bit changes / equal bytes with different type, dense triples with all pairwise comparisons, random chains of FlowFromEndpoints/Endpoints/Src/Dst/Reverse, rejection above 16 bytes; and for each of the 12 layer flow constructors well-formed headers (both directions), truncations at and around the header length, header-field mutations and random bytes, decoded lazily through gopacket.NewPacket; plus whole Ethernet/IPv4|IPv6/TCP|UDP|SCTP packets (IP options, fragments, length-field variations, truncations, byte mutations) decoded eagerly in both directions. After every op the pushed values (type, Raw, FastHash) or the comparison results (==, LessThan both ways, map insert+lookup, hash equality) are compared with the model; the implementation-side oracle checks the value laws and the layer/address/reverse/hash clauses directly.',
+                    'reversed-pair', 'layer-flow', 'reused-layer-reused-buffer'],
+    'rule': 'Op sequences over an append-only register file of endpoints and flows: NewEndpoint/NewFlow for 14 endpoint types (incl. negative, min/max int64) x raw lengths 0..18, pairs with shared prefixes / zero extensions / one-bit changes / equal bytes with different type, dense triples with all pairwise comparisons, random chains of FlowFromEndpoints/Endpoints/Src/Dst/Reverse, rejection above 16 bytes; and for each of the 12 layer flow constructors well-formed headers (both directions), truncations at and around the header length, header-field mutations and random bytes, decoded lazily through gopacket.NewPacket; plus whole Ethernet/IPv4|IPv6/TCP|UDP|SCTP packets (IP options, fragments, length-field variations, truncations, byte mutations) decoded eagerly in both directions; plus, for every flow-bearing layer with DecodeFromBytes (Ethernet, IPv4, IPv6, TCP, UDP, SCTP, LinuxSLL, LinuxSLL2), sequences of 2-4 packets (new conversations, replies, repeats, undecodable ones) decoded into ONE layer object from fresh slices and from one capture buffer overwritten in place, the flow accessor called once or twice after every decode and compared per step with the flow the model computes from the current header bytes. After every op the pushed values (type, Raw, FastHash) or the comparison results (==, LessThan both ways, map insert+lookup, hash equality) are compared with the model; the implementation-side oracle checks the value laws and the layer/address/reverse/hash clauses directly.',
     'shrink_keep_first': 0,
     'assumptions': ['bytes.Compare is lexicographic comparison with a proper prefix smaller (stdlib specification)',
                     'Go struct == and map key equality are componentwise equality of the representation',
+                    'the flow accessors are functions of the layer\'s current address fields only (no memo): after a decode that assigns the fields the flow is that of the CURRENT header bytes (theorem C17_seq_current), whatever was decoded into the object before and whether the buffer is fresh or reused',
                     'the packet data slice has cap == len (NewPacket copies into make([]byte, len))',
                     'TCP option kind 30 (MPTCP) parsing and IPv6 hop-by-hop decoding are outside the layer model (inputs excluded by the generator; the model answers cls=unmodelled)'],
     'trusted_base': ['model: coq/Model/C17Model.v is a hand transcription of flows.go:27-236 and of the flow constructors / decode guards of layers/{ethernet,fddi,ip4,ip6,linux_sll,linux_sll2,ppp,rudp,sctp,tcp,udp,udplite}.go'],
